@@ -268,8 +268,22 @@ func runSyncInBubble(sc *SyncScenario, lay Layout, hooks SessionHooks, res *Sess
 		if clientParty != nil && !res.ClientDone {
 			res.ClientErr = clientParty.Err()
 		}
+		if serverParty != nil && !res.ServerDone {
+			res.ServerErr = serverParty.Err()
+		}
 		res.Panic = clientPanic
 		res.ClientStderr, res.ClientStdout, res.ServerStderr = cErr.String(), cOut.String(), sErr.String()
+		if sc.ViaServe && res.ServerErr == nil {
+			// behind Serve the handler's error is only logged
+			if i := strings.LastIndex(res.ServerStderr, "] handle: "); i >= 0 {
+				line := res.ServerStderr[i+len("] handle: "):]
+				if j := strings.IndexByte(line, '\n'); j >= 0 {
+					line = line[:j]
+				}
+				res.ServerErr = fmt.Errorf("%s", line)
+			}
+			res.ServerDone = true
+		}
 	}
 
 	if sc.Arr == "A4" {
